@@ -268,15 +268,7 @@ func runC16(ctx *runCtx) {
 		sem <- struct{}{}
 		go func(i int) {
 			defer func() { <-sem }()
-			sh, w := "", ""
-			func() {
-				defer func() {
-					if r := recover(); r != nil {
-						sh, w = "panic", fmt.Sprint(r)
-					}
-				}()
-				sh, w = runC16Case(cases[i])
-			}()
+			sh, w := guarded(40*time.Second, func() (string, string) { return runC16Case(cases[i]) })
 			out <- res{i, sh, w}
 		}(i)
 	}
